@@ -14,6 +14,10 @@ CONSTANTS Flags,        \* deviations built into the machine ({} = the statement
           Mode          \* "plain": files a, b + module m; "rel": package k (__init__ + members u, v) with relative imports;
                         \* "conc": two activations of one module function at a time - suspended callers from two files,
                         \*         a re-entrant callback chain a -> m.apply -> a.cb -> m.apply, recursion across a file boundary
+                        \* "deco": function values made by another file's code - a decorator / factory of m returning a closure,
+                        \*         applied by a and b with decorator syntax (also below @event_trigger), explicitly, or as a factory
+                        \* "task": context-bound functions (current context, task.wait_until expression) in created tasks whose
+                        \*         code belongs to another file than their creator's, creator alive elsewhere or finished
 
 VARIABLES P, S
 vars == <<P, S>>
@@ -24,10 +28,20 @@ Read(x, tag) == [op |-> "read", x |-> x, tag |-> tag]
 ReadAttr(m, x, tag) == [op |-> "readattr", m |-> m, x |-> x, tag |-> tag]
 SetAttr(m, x, v) == [op |-> "setattr", m |-> m, x |-> x, v |-> v]
 Raise == [op |-> "raise"]
-Def(f, body, trig) == [op |-> "def", f |-> f, body |-> body, trig |-> trig]
+DDef(f, body, trig, deco, dvia) == [op |-> "def", f |-> f, body |-> body, trig |-> trig, deco |-> deco, dvia |-> dvia, kind |-> "std"]
+Def(f, body, trig) == DDef(f, body, trig, "", "")
+Deco(f, body) == [op |-> "def", f |-> f, body |-> body, trig |-> "", deco |-> "", dvia |-> "", kind |-> "deco"]
+LDef(f, body) == [op |-> "ldef", f |-> f, body |-> body]
+Ret(x) == [op |-> "ret", x |-> x]
+FCall == [op |-> "fcall"]
+BindCall(x, f, via, arg) == [op |-> "bindcall", x |-> x, f |-> f, via |-> via, arg |-> arg]
+GetCtx(tag) == [op |-> "getctx", tag |-> tag]
+ListCtx(tag) == [op |-> "listctx", tag |-> tag]
+WExpr(x, v, t, tag) == [op |-> "wexpr", x |-> x, v |-> v, t |-> t, tag |-> tag]
 Call(f, via) == [op |-> "call", f |-> f, via |-> via]
 TryCall(f, via, tag) == [op |-> "trycall", f |-> f, via |-> via, tag |-> tag]
-Task(f) == [op |-> "task", f |-> f]
+TaskV(f, via) == [op |-> "task", f |-> f, via |-> via]
+Task(f) == TaskV(f, "")
 Sleep(t) == [op |-> "sleep", t |-> t]
 DCall(f, via, cb) == [op |-> "dcall", f |-> f, via |-> via, cb |-> cb]
 Import(form, target, alt, as, names) == [op |-> "import", form |-> form, target |-> target, alt |-> alt, as |-> as, names |-> names]
@@ -77,11 +91,59 @@ ConcBody(who, form, use, ev, eps) ==
   << Set("WHO", who), Set("x", who \o "0"), Import(form, "modules.m", "modules.m", "m", <<"slow", "apply", "rec">>),
      Def("cb", << DCall("apply", IF form = "mod" THEN "m" ELSE "", "cb"), Read("WHO", who \o ".cb.who") >>, ""),
      Def("t", << Sleep(eps), Loc("y", who \o "l") >> \o use \o << Read("WHO", who \o ".t.who"), Read("y", who \o ".t.y"),
-                 [op |-> "getctx", tag |-> who \o ".t.ctx"] >>, ev) >>
+                 GetCtx(who \o ".t.ctx") >>, ev) >>
+
+\* decorator grammar.  m: decorator d (returns a closure w over _fn that reads / writes m's global x before or after calling
+\* the wrapped function, or returns _fn itself).  a binds f through d in one of three ways, calls it, reads its own x; a has
+\* a trigger function - decorated itself (the trigger runs m's closure, which runs a's function) or plain (calls f).  b
+\* decorates a function of its own with the same decorator.
+WBodies == { << Set("x", "mw"), FCall >>, << Read("x", "w.x"), FCall, GetCtx("w.ctx") >>, << FCall, Set("x", "mw") >>,
+             << Loc("x", "wl"), FCall, Read("x", "w.x") >>, << WExpr("x", "m0", 8, "w.wx"), FCall >> }
+DBodies == { << LDef("w", wb), Ret("w") >> : wb \in WBodies } \cup { << Set("x", "md"), LDef("w", wb), Ret("w") >> : wb \in WBodies }
+           \cup { << Ret("_fn") >> }
+MDeco(db) == << Set("WHO", "m"), Set("x", "m0"), Deco("d", db) >>
+FBs == { << Set("x", "af") >>, << Read("x", "f.x"), GetCtx("f.ctx") >>, << Raise >> }
+Hows == {"syntax", "explicit", "factory"}
+ImportD(form) == Import(form, "modules.m", "modules.m", "m", <<"d">>)
+ADeco(form, how, fb, trigdeco) ==
+  LET via == IF form = "mod" THEN "m" ELSE "" IN
+  << Set("WHO", "a"), Set("x", "a0"), ImportD(form) >>
+  \o (IF how = "syntax" THEN << DDef("f", fb, "", "d", via) >>
+      ELSE IF how = "explicit" THEN << Def("f", fb, ""), BindCall("f", "d", via, "f") >> ELSE << BindCall("f", "d", via, "") >>)
+  \o << TryCall("f", "", "a.f"), Read("f", "a.rf"), Read("x", "a.x"), GetCtx("a.ctx") >>
+  \o (IF trigdeco THEN << DDef("t", << Sleep(1), Read("x", "t.x"), GetCtx("t.ctx") >>, "e1", "d", via) >>
+      ELSE << Def("t", << Sleep(1), TryCall("f", "", "t.f"), Read("x", "t.x"), GetCtx("t.ctx") >>, "e1") >>)
+BDeco(form) == << Set("WHO", "b"), Set("x", "b0"), ImportD(form), DDef("f", << Set("x", "bf") >>, "", "d", IF form = "mod" THEN "m" ELSE ""),
+                  TryCall("f", "", "b.f"), Read("x", "b.x") >>
+
+\* created-task grammar.  m: job j (suspends, asks for its context, waits on an expression over m's x, reads x), slow (suspends
+\* inside m).  a and b: own job ja / jb, a trigger function that creates a task (m's job - code of another file - or its own)
+\* and then ends, asks for its context, or stays suspended inside m.slow while the task runs.
+MTask == << Set("WHO", "m"), Set("x", "m0"),
+            Def("j", << Sleep(16), GetCtx("j.ctx"), WExpr("x", "m0", 1024, "j.wx"), Read("x", "j.x") >>, ""),
+            Def("slow", << Sleep(1024), GetCtx("slow.ctx") >>, "") >>
+Afters(via) == { <<>>, << Call("slow", via) >>, << GetCtx("t.ctx") >> }
+TBody(who, form, own, aft, ev, eps) ==
+  LET via == IF form = "mod" THEN "m" ELSE "" IN
+  << Set("WHO", who), Set("x", who \o "0"), Import(form, "modules.m", "modules.m", "m", <<"j", "slow">>),
+     Def("jo", << Sleep(32 * eps), ListCtx(who \o ".jo.ctx"), WExpr("x", "m0", 2048, who \o ".jo.wx") >>, ""),
+     Def("t", << Sleep(eps), IF own THEN Task("jo") ELSE TaskV("j", via) >> \o aft, ev) >>
 
 File(body, auto) == [body |-> body, auto |-> auto]
 Progs ==
-  IF Mode = "conc"
+  IF Mode = "deco"
+  THEN { [files |-> ("file.a" :> File(ADeco(fa, how, fb, td), TRUE)) @@ ("file.b" :> File(BDeco(fa), TRUE)) @@
+                    ("modules.m" :> File(MDeco(db), FALSE)),
+          order |-> <<"file.a", "file.b">>, events |-> <<"e1">>]
+         : fa \in Forms, <<how, db>> \in { hd \in Hows \X DBodies : ~(hd[1] = "factory" /\ hd[2] = << Ret("_fn") >>) },     \* d() returns no function
+           fb \in FBs, td \in BOOLEAN }
+  ELSE IF Mode = "task"
+  THEN { [files |-> ("file.a" :> File(TBody("a", fa, oa, aa, "e1", 1), TRUE)) @@ ("file.b" :> File(TBody("b", fb, ob, <<>>, "e2", 2), TRUE)) @@
+                    ("modules.m" :> File(MTask, FALSE)),
+          order |-> <<"file.a", "file.b">>, events |-> <<"e1", "e2">>]
+         : <<fa, aa>> \in UNION { { <<f, x>> : x \in Afters(IF f = "mod" THEN "m" ELSE "") } : f \in Forms },
+           oa \in BOOLEAN, fb \in {"mod", "star"}, ob \in BOOLEAN }
+  ELSE IF Mode = "conc"
   THEN { [files |-> ("file.a" :> File(ConcBody("a", fa, ua, "e1", 1), TRUE)) @@ ("file.b" :> File(ConcBody("b", fb, ub, "e2", 2), TRUE)) @@
                     ("modules.m" :> File(MConc, FALSE)),
           order |-> <<"file.a", "file.b">>, events |-> <<"e1", "e2">>]
@@ -105,6 +167,7 @@ Spec == Init /\ [][Next]_vars
 InvWrites   == WritesOnlyToOwnGlobals(S)
 InvPointer  == PointerRestoredOnEveryExit(S)
 InvInstance == OneInstancePerModule(S) /\ OneContextPerFile(P, S)
+InvCtxFuncs == ContextFunctionsFollowTheCode(S)
 InvOk       == S.ok
 \* witnesses (expected to be violated): calls across contexts happen, exceptions cross contexts, modules are shared
 W_NoCrossCall  == ~(Len(S.stack) >= 2 /\ Top(S).kind = "call" /\ Top(S).own # S.stack[Len(S.stack) - 1].own)
@@ -118,11 +181,29 @@ W_NoReentry    == ~(\E i, j \in 1..Len(S.stack) : i + 1 < j /\ S.stack[i].kind =
                       /\ S.stack[i].fkey = S.stack[j].fkey /\ S.stack[i].fkey.name = "apply" /\ S.stack[i + 1].own # S.stack[i].own)
 W_NoRecursion  == ~(\E i \in 1..Len(S.stack) : i > 1 /\ i < Len(S.stack) /\ S.stack[i].kind = "call" /\ S.stack[i].fkey.name = "rec"
                       /\ S.stack[i + 1].kind = "call" /\ S.stack[i + 1].fkey = S.stack[i].fkey /\ S.stack[i - 1].own # S.stack[i].own)
+\* a closure made by m's decorator runs on behalf of a (m's globals), and calls back the function of a it wraps (a's globals);
+\* a trigger evaluator whose entry point is m's closure around a's function
+IsW(fr) == fr.kind = "call" /\ fr.fkey.name = "w" /\ fr.own = "modules.m"
+W_NoWrapperCall == ~(Len(S.stack) >= 2 /\ IsW(Top(S)) /\ S.stack[Len(S.stack) - 1].own = "file.a" /\ Top(S).fn.k = "func" /\ Top(S).fn.ctx = "file.a")
+W_NoWrappedBack == ~(Len(S.stack) >= 3 /\ Top(S).kind = "call" /\ Top(S).own = "file.a" /\ IsW(S.stack[Len(S.stack) - 1])
+                      /\ S.stack[Len(S.stack) - 2].own = "file.a")
+W_NoDecoTrigger == ~(Len(S.stack) = 2 /\ IsW(S.stack[1]) /\ S.stack[1].saved = "" /\ S.stack[2].fkey.name = "t")
+W_NoFactory     == ~(S.stack # <<>> /\ IsW(Top(S)) /\ Top(S).fn = NoCb)
+\* a created task running code of another file than the one that created it; a task running while its creator is suspended in
+\* another context than the task's code; an expression handed to task.wait_until that times out in a task
+W_NoTaskCrossing    == ~(S.stack # <<>> /\ S.ev.by # 0 /\ S.stack[1].saved # S.stack[1].own /\ Top(S).pc <= Len(Top(S).code) /\ Cur(S).op = "getctx")
+W_NoCreatorElsewhere == ~(S.stack # <<>> /\ S.ev.by # 0 /\ Top(S).pc <= Len(Top(S).code) /\ Cur(S).op \in {"listctx", "wexpr"}
+                           /\ \E i \in 1..Len(S.sleepers) : S.sleepers[i].ev.id = S.ev.by /\ S.sleepers[i].ptr # S.ptr)
+W_NoTimeout         == ~(\E i \in 1..Len(S.log) : S.log[i].v = Data("timeout"))
 \* all witnesses in one run (workers = 1): registers set by the invariant WitTrack, printed by the post-condition
-WitNames == << "W_NoCrossCall", "W_NoCaught", "W_NoSharedSeen", "W_NoTask", "W_NoInterleave", "W_NoReentry", "W_NoRecursion" >>
+WitNames == << "W_NoCrossCall", "W_NoCaught", "W_NoSharedSeen", "W_NoTask", "W_NoInterleave", "W_NoReentry", "W_NoRecursion",
+              "W_NoWrapperCall", "W_NoWrappedBack", "W_NoDecoTrigger", "W_NoFactory", "W_NoTaskCrossing", "W_NoCreatorElsewhere", "W_NoTimeout" >>
 WitVal(k) == CASE k = 1 -> ~W_NoCrossCall [] k = 2 -> ~W_NoCaught [] k = 3 -> ~W_NoSharedSeen [] k = 4 -> ~W_NoTask
                [] k = 5 -> ~W_NoInterleave [] k = 6 -> ~W_NoReentry [] k = 7 -> ~W_NoRecursion
+               [] k = 8 -> ~W_NoWrapperCall [] k = 9 -> ~W_NoWrappedBack [] k = 10 -> ~W_NoDecoTrigger [] k = 11 -> ~W_NoFactory
+               [] k = 12 -> ~W_NoTaskCrossing [] k = 13 -> ~W_NoCreatorElsewhere [] k = 14 -> ~W_NoTimeout
 ASSUME \A k \in 1..Len(WitNames) : TLCSet(k, FALSE)
-WitTrack  == \A k \in 1..Len(WitNames) : WitVal(k) => TLCSet(k, TRUE)
+WitOf == IF Mode = "plain" THEN 1..4 ELSE IF Mode = "conc" THEN 5..7 ELSE IF Mode = "deco" THEN 8..11 ELSE IF Mode = "task" THEN 12..14 ELSE {}
+WitTrack  == \A k \in WitOf : (~TLCGet(k) /\ WitVal(k)) => TLCSet(k, TRUE)       \* only the witnesses of the grammar in use, until seen
 WitReport == PrintT("INFO " \o ToJson([seen |-> { WitNames[k] : k \in { j \in 1..Len(WitNames) : TLCGet(j) } }]))
 =============================================================================
